@@ -24,7 +24,8 @@ import (
 
 func init() {
 	fw.Register(&fw.Prop{
-		ID: "C13",
+		ID:       "C13",
+		OwnProcs: true, // GOMAXPROCS is part of each execution's schedule here
 		Rule: "executions of Mine over versions {v1, v2} x workers {1,2,3,4,8,16,32,64} x target class {every batch qualifies (all workers find at once), easy, medium, unattainable in time} x cancellation {never, before the call, inside the watcher's first Done() call, after a seeded delay 0..5 ms, around the expected find time, from 8 goroutines at once} x context kind {context.Background (nil Done channel), harness context whose channel is never closed, harness cancellable context, context.WithCancel} x GOMAXPROCS {1,2,4,16} x CPU hogs on/off x delay injected inside Done() x optionally a second goroutine mining concurrently on the same *Worker. Events CALL, DONE-CALLED, CANCEL-ISSUED, RETURN are stamped from one atomic counter at the client boundary. Monitors: M1 result (nonce meets the target under Score, or the version's ErrCancelled and only after CANCEL-ISSUED); M2 bounded return (30 s after cancellation, goroutine dump classifies deadlock / still hashing); M3 goroutine accounting (2 s after return: no goroutine with a pkg/pow frame, and no goroutine that did not exist before the call unless the harness or the runtime started it — e.g. a context watcher the standard library started on behalf of the call); M4 race detector (race build: reports with a pkg/pow frame are violations). " +
 			"Non-trivial: distinct (version, workers, target class, cancel mode, context kind, GOMAXPROCS) tuples.",
 		Assumptions: []string{"Go offers no controlled scheduler: interleavings are sampled (race build, GOMAXPROCS, hogs, delays), not enumerated", "30 s / 2 s are watchdog bounds four orders of magnitude above the expected latencies", "the package's own Score decides whether a nonce meets the target (Score itself is judged by C11/C12)"},
